@@ -1263,3 +1263,56 @@ func ancestors(root, target ast.Node) []ast.Node {
 	})
 	return found
 }
+
+// tableEntry is one key -> value pair of a package-level map, however it is populated: an element of the variable's
+// composite-literal initialiser, or an assignment `tbl[k] = v` anywhere in the package (typically in init()).
+type tableEntry struct {
+	key, val ast.Expr
+	pos      token.Pos
+}
+
+func (p *Prog) tableEntries(sp, name string) []tableEntry {
+	pk := p.Mod[sp]
+	if pk == nil {
+		return nil
+	}
+	want := sp + "." + name
+	var out []tableEntry
+	for _, f := range pk.Syntax {
+		ast.Inspect(f, func(x ast.Node) bool {
+			switch n := x.(type) {
+			case *ast.ValueSpec:
+				for i, id := range n.Names {
+					if id.Name != name || i >= len(n.Values) {
+						continue
+					}
+					if o := p.objOf(id); o == nil || qual(o) != want {
+						continue
+					}
+					if cl, ok := unparen(n.Values[i]).(*ast.CompositeLit); ok {
+						for _, e := range cl.Elts {
+							if kv, ok := e.(*ast.KeyValueExpr); ok {
+								out = append(out, tableEntry{kv.Key, kv.Value, kv.Pos()})
+							}
+						}
+					}
+				}
+			case *ast.AssignStmt:
+				if len(n.Lhs) != 1 || len(n.Rhs) != 1 {
+					return true
+				}
+				ix, ok := n.Lhs[0].(*ast.IndexExpr)
+				if !ok {
+					return true
+				}
+				if o := p.objOf(ix.X); o == nil || qual(o) != want {
+					return true
+				}
+				out = append(out, tableEntry{ix.Index, n.Rhs[0], n.Pos()})
+			}
+			return true
+		})
+	}
+	sort.SliceStable(out, func(i, j int) bool { return out[i].pos < out[j].pos })
+	return out
+}
